@@ -109,10 +109,34 @@ func (g *groundTruth) visit(v reflect.Value, parent int, required bool) {
 	}
 }
 
+// unionSkip: structs that hold alternatives side by side; the alternatives not chosen are zero values that take up
+// space in the struct but are not nodes of the program (a `static {}` element has no field, a #private name no
+// property name).
+func unionSkip(s reflect.Value, field string) bool {
+	switch s.Type().Name() {
+	case "ClassElement":
+		chosen := "Field"
+		if !s.FieldByName("StaticBlock").IsNil() {
+			chosen = "StaticBlock"
+		} else if !s.FieldByName("Method").IsNil() {
+			chosen = "Method"
+		}
+		return field != chosen
+	case "ClassElementName":
+		if !s.FieldByName("Private").IsNil() {
+			return field == "PropertyName"
+		}
+	}
+	return false
+}
+
 func (g *groundTruth) fields(s reflect.Value, parent int) {
 	t := s.Type()
 	for i := 0; i < t.NumField(); i++ {
 		f := t.Field(i)
+		if unionSkip(s, f.Name) {
+			continue
+		}
 		if f.Type == tScope || f.Type.Kind() == reflect.Ptr && f.Type.Elem() == tScope {
 			continue // scope tables are not part of the tree
 		}
